@@ -321,6 +321,24 @@ Theorem C16_collapse_index_unbounded : index_column_unbounded collapse_index_max
 Proof. exact (fun _ => I). Qed.
 Print Assumptions C16_collapse_index_unbounded.
 
+(* remove_terms (as regenerated: the attributes it shortens) keeps integer, binary = (x|z) and binary_swap = (z|x)
+   describing the same rows, for all objects and all index sets; a variant that forgets one form is refuted;
+   _update assigns every form *)
+Theorem C16_remove_terms_keeps_forms :
+  forall idx F, forms_ok F -> forms_ok (mf_remove_forms remove_terms_updates idx F).
+Proof. intros idx F. apply remove_forms_ok. vm_compute. reflexivity. Qed.
+Print Assumptions C16_remove_terms_keeps_forms.
+
+Theorem C16_remove_terms_stale_form_refuted :
+  exists F idx, forms_ok F /\
+    ~ forms_ok (mf_remove_forms ["factors"; "integer"; "binary_swap"; "terms"]%string idx F).
+Proof. exact remove_forms_stale_binary_refuted. Qed.
+
+Theorem C16_update_assigns_all_forms :
+  forallb (fun a => has_name a update_assigns) ["n_qubits"; "factors"; "integer"; "binary"; "binary_swap"]%string = true.
+Proof. vm_compute. reflexivity. Qed.
+Print Assumptions C16_update_assigns_all_forms.
+
 (* symplectic_iff_commute, all rows *)
 Theorem C16_symplectic_iff_commute :
   forall a b, List.length a = List.length b -> iword_ok a -> iword_ok b ->
